@@ -1,13 +1,18 @@
 ------------------------------ MODULE MC_Market ------------------------------
 (* Bounded model of the M1 market stage for C04 / C05 / C06.
-   From each initial state (the empty market, optionally fixture states with open interest, pnl,
-   pending borrowing fees and a position impact pool) TLC explores every sequence of at most
-   NDep deposits, NWd withdrawals and NSwap swaps with amounts from Amounts, under every listed
-   configuration and price scenario.  The invariants are the monitors of MarketProps evaluated on
-   the event each enabled operation would produce (so the *design* is shown to satisfy them, and
-   tolerances are calibrated here first).  Every explored (state, operation) pair is printed as a
-   "T|" line; the driver injects `from` into the real market, applies the operation with the real
-   code and records the event that Trace_Market then judges. *)
+   From each initial state (the empty market, or fixture states with open interest, pnl, pending
+   borrowing fees, a position impact pool, a virtual inventory) TLC explores every sequence of at
+   most NDep deposits, NWd withdrawals and NSwap swaps with amounts from Amounts, under every
+   listed configuration and price scenario.  The monitors of MarketProps are evaluated on the
+   event of every explored operation (and on the immediate full withdrawal after every successful
+   deposit); the name of a failing monitor is kept in `bad`, and the invariant is bad = "" — so
+   the *design* is shown to satisfy the monitors and tolerances are calibrated here first.
+   Every explored (state, operation) pair whose operation is in EmitOps is printed as a "T|" line;
+   the driver injects `from` into the real market, applies the operation with the real code and
+   records the event that Trace_Market then judges.
+   Configurations: MC_Market.cfg (swaps, C04/C05), MC_Market_lp.cfg (deposits / withdrawals, C06),
+   MC_Market_fix.cfg (fixture states), *_thorough.cfg (larger), MC_Market_sim.cfg (simulation of
+   deeper histories with prices moving at every step; design level only). *)
 EXTENDS MarketProps, TLC, Json, Sequences
 
 CONSTANTS NDep, NWd, NSwap,     \* operation budget of a behaviour
